@@ -109,7 +109,7 @@ func registerSyncMapModels() {
 		m := args[0].(*value)
 		hook(fr, "vOnSyncMap", "Store", args[1])
 		for i, e := range syncMaps[m] {
-			if equals(nil, e.k, args[1]) {
+			if syncKeyEq(e.k, args[1]) {
 				hook(fr, "vOnSyncMapOverwrite", args[1], e.v, args[2])
 				syncMaps[m][i].v = args[2]
 				return nil
@@ -122,7 +122,7 @@ func registerSyncMapModels() {
 		m := args[0].(*value)
 		hook(fr, "vOnSyncMap", "LoadOrStore", args[1])
 		for _, e := range syncMaps[m] {
-			if equals(nil, e.k, args[1]) {
+			if syncKeyEq(e.k, args[1]) {
 				hook(fr, "vOnSyncMapResult", args[1], e.v)
 				return tuple{e.v, true}
 			}
@@ -135,7 +135,7 @@ func registerSyncMapModels() {
 		m := args[0].(*value)
 		hook(fr, "vOnSyncMap", "Load", args[1])
 		for _, e := range syncMaps[m] {
-			if equals(nil, e.k, args[1]) {
+			if syncKeyEq(e.k, args[1]) {
 				return tuple{e.v, true}
 			}
 		}
@@ -210,4 +210,30 @@ func init() {
 		ex.assume(mkCmp("bvult", t, mkConst(8, uint64(n))))
 		return int(ex.concretizeRange(t, 0, int64(n-1)))
 	}
+}
+
+// syncKeyEq compares two sync.Map keys; string keys with symbolic bytes are compared with a decision.
+func syncKeyEq(a, b value) bool {
+	ai, ok1 := a.(iface)
+	bi, ok2 := b.(iface)
+	if ok1 && ok2 {
+		if ai.t == nil || bi.t == nil {
+			return ai.t == nil && bi.t == nil
+		}
+		if !types.Identical(ai.t, bi.t) {
+			return false
+		}
+		if isStrVal(ai.v) && isStrVal(bi.v) {
+			return keyEqDecide(ai.v, bi.v)
+		}
+		if containsSym(ai.v) || containsSym(bi.v) {
+			switch r := equalsV(ai.t, ai.v, bi.v).(type) {
+			case bool:
+				return r
+			case sym:
+				return ex.branch(r.t)
+			}
+		}
+	}
+	return equals(nil, a, b)
 }
